@@ -42,7 +42,8 @@ def run(ctx):
            "zero_price": sum(1 for e in allev if e["op"] == "compute" and not e["ok"])}
     for k, v in cls.items():
         if v == 0:
-            raise vlib.ToolError("vacuity: no event of class " + k)
+            if not ctx.violations:
+                raise vlib.ToolError("vacuity: no event of class " + k)
     ctx.cov["classes"] = cls
     ctx.distinct += len({(e["op"], e["size"], e["f"], e["pmin"], e["x"], e["pre"], e["swap"]) for e in allev})
     # 3. wide tier
